@@ -58,13 +58,19 @@ def shutdown_summary(F, body):
             if c.get("def") == "core::mem::drop" and t["args"]:
                 p = op_place(t["args"][0])
                 if p is not None:
-                    l = p["l"]
-                    # follow one move
-                    for kind, bb, idx, node in body.defs().get(l, []):
-                        if kind == "assign" and node["rv"]["k"] == "use":
-                            q = op_place(node["rv"]["op"])
-                            if q is not None and _is_stream_place(body, q):
-                                drops.append(i)
+                    work, seen = [p["l"]], set()
+                    while work:
+                        l = work.pop()
+                        if l in seen:
+                            continue
+                        seen.add(l)
+                        for kind, bb, idx, node in body.defs().get(l, []):
+                            if kind == "assign" and node["k"] == "assign" and node["rv"]["k"] == "use":
+                                q = op_place(node["rv"]["op"])
+                                if q is not None and _is_stream_place(body, q):
+                                    drops.append(i)
+                                elif q is not None and not q.get("p"):
+                                    work.append(q["l"])
     if not drains:
         return False, "no drain (call reaching ArrayQueue::pop)"
     if not flushes:
